@@ -16,8 +16,17 @@ package agreement
 //   4. behaviour: submitTop(e) on S' and on R yields the same action list (type, tag, sender/round/period/
 //      step/value of every vote, bundle sizes, handle nil-ness, ...) and successors that encode and
 //      compare identically;
+//   4b. the node's NEXT event is applied to copies of both successors as well (behaviour two events
+//      after the restore);
 //   5. the action list produced by the live node, when it contains a persistent (attest) action - the
 //      only lists Service.persistState writes - survives encode/decode (same types, structurally equal).
+// The restored image S' is built ONLY from decode(encode(S)) bytes (its routers' listener wrappers are
+// nil, as after a real restart); the live nodes of the explorer and the reference image R keep their
+// listeners BOUND, like a node that never restarted: the encode-independent deep copy remaps the
+// interior pointers of the listener wrappers into the copy (eagrCopyCtx). (An earlier version of the
+// copy left the listeners nil on every image, which made live and restored nodes re-bind in lock-step
+// and hid seeded change C07-B - stepRouter.update resetting the tracker of a router whose listener is
+// nil; it is DETECTED now, at the first vote routed to a restored step router.)
 // Non-vacuity counters in the evidence: states with step routers / pending proposal table /
 // pipelined next-round routers / equivocation records.
 //
